@@ -98,12 +98,12 @@ type QWorld struct {
 	TraceOn                                                                               bool
 	traceHash                                                                             uint64
 	Markers                                                                               bool
-	Faulty       bool // a fault plan is installed on the disk: injected I/O errors are expected
-	UnsafeReopen bool // an I/O error happened and no commit succeeded since: do not reopen (C08's subject)
-	IOErrs       int
-	injectedSeen int
-	lastProgress int
-	AbortCase    bool // the case ended early for a reason that is no verdict
+	Faulty                                                                                bool // a fault plan is installed on the disk: injected I/O errors are expected
+	UnsafeReopen                                                                          bool // an I/O error happened and no commit succeeded since: do not reopen (C08's subject)
+	IOErrs                                                                                int
+	injectedSeen                                                                          int
+	lastProgress                                                                          int
+	AbortCase                                                                             bool // the case ended early for a reason that is no verdict
 	lastACKStartPage                                                                      int
 }
 
